@@ -127,6 +127,42 @@ fn spec_hash(topic: &Topic, alice_half: &[u8; 32], bob_half: &[u8; 32], directio
     *h.finalize().as_bytes()
 }
 
+/// The two address book stores are made once (building one runs all migrations) and emptied
+/// before every run.
+#[derive(Clone)]
+struct Stores {
+    alice: SqliteStore,
+    bob: SqliteStore,
+    filled: Arc<Mutex<Vec<TestNodeId>>>,
+}
+
+impl Stores {
+    async fn new() -> Stores {
+        Stores {
+            alice: SqliteStore::temporary().await,
+            bob: SqliteStore::temporary().await,
+            filled: Arc::new(Mutex::new(Vec::new())),
+        }
+    }
+
+    async fn clear(&self) {
+        let ids: Vec<TestNodeId> = std::mem::take(&mut *self.filled.lock().unwrap());
+        for store in [&self.alice, &self.bob] {
+            for id in &ids {
+                tx_unwrap!(store, {
+                    <SqliteStore as AddressBookStore<TestNodeId, TestNodeInfo>>::remove_node_info(store, id)
+                        .await
+                        .expect("remove node info");
+                });
+            }
+            let left = <SqliteStore as AddressBookStore<TestNodeId, TestNodeInfo>>::all_nodes_len(store)
+                .await
+                .expect("count");
+            assert_eq!(left, 0, "address book store not empty after clearing");
+        }
+    }
+}
+
 async fn fill_store(store: &SqliteStore, book: &[Entry], names: &Names, rng: &mut ChaCha20Rng) {
     for e in book {
         let id = names.nodes[&e.node];
@@ -148,10 +184,12 @@ async fn fill_store(store: &SqliteStore, book: &[Entry], names: &Names, rng: &mu
 }
 
 /// Runs both roles of the real protocol against each other and returns what was observed.
-async fn run_protocol(case: &Case, names: &Names, seed: u64) -> Result<RunOutput, String> {
+async fn run_protocol(case: &Case, names: &Names, seed: u64, stores: &Stores) -> Result<RunOutput, String> {
     let mut rng = ChaCha20Rng::seed_from_u64(seed);
-    let alice_store = SqliteStore::temporary().await;
-    let bob_store = SqliteStore::temporary().await;
+    stores.clear().await;
+    let alice_store = stores.alice.clone();
+    let bob_store = stores.bob.clone();
+    stores.filled.lock().unwrap().extend(names.nodes.values().copied());
     fill_store(&alice_store, &case.book_a, names, &mut rng).await;
     fill_store(&bob_store, &case.book_b, names, &mut rng).await;
 
@@ -474,6 +512,7 @@ fn replay(args: &Args) {
     );
     let mut rng = Rng::new(args.seed);
     let rt = runtime();
+    let stores = rt.block_on(Stores::new());
     for b in &behaviours {
         out.eval();
         let case = Case {
@@ -509,7 +548,8 @@ fn replay(args: &Args) {
             match tokio::spawn({
                 let case = case.clone();
                 let names = Names { topics: names.topics.clone(), nodes: names.nodes.clone() };
-                async move { run_protocol(&case, &names, seed).await }
+                let stores = stores.clone();
+                async move { run_protocol(&case, &names, seed, &stores).await }
             })
             .await
             {
@@ -618,18 +658,19 @@ fn record(args: &Args) {
     let topic_universe: Vec<String> = (1..=12).map(|i| format!("t{i}")).collect();
     let node_universe: Vec<String> = (1..=6).map(|i| format!("n{i}")).collect();
     let rt = runtime();
+    let stores = rt.block_on(Stores::new());
     for run in 0..n {
         out.eval();
         // varying overlap: a pool of 1..=12 topics, each party takes each with its own probability
         let pool = rng.range(1, 12) as usize;
         let pa = rng.range(0, 4);
         let pb = rng.range(0, 4);
-        let mut pick = |p: u64, rng: &mut Rng| -> BTreeSet<String> {
+        let pick = |p: u64, rng: &mut Rng| -> BTreeSet<String> {
             topic_universe[..pool].iter().filter(|_| rng.chance(p, 4)).cloned().collect()
         };
         let topics_a = pick(pa, &mut rng);
         let topics_b = pick(pb, &mut rng);
-        let mut book = |rng: &mut Rng| -> Vec<Entry> {
+        let book = |rng: &mut Rng| -> Vec<Entry> {
             let mut b = Vec::new();
             for node in &node_universe {
                 if rng.chance(1, 4) {
@@ -676,7 +717,8 @@ fn record(args: &Args) {
             match tokio::spawn({
                 let case = case.clone();
                 let names = Names { topics: names.topics.clone(), nodes: names.nodes.clone() };
-                async move { run_protocol(&case, &names, seed).await }
+                let stores = stores.clone();
+                async move { run_protocol(&case, &names, seed, &stores).await }
             })
             .await
             {
